@@ -148,7 +148,127 @@ def units_C14(tier, seed):
                       extra=['-mbmi2'], sites=[1, 2], diff=(N == 3 and C == 'size_t'))
             U += unit(f'c14_morton_curve_port_{N}_{C}', 'c01_layouts.cpp', f'morton_curve_h<{N},{C},false>()', 'BITS',
                       sites=[1, 2], diff=(N == 2 and C == 'size_t'))
-    for k in range(1, (9 if th else 7)):
+    for k in range(1, (11 if th else 9)):
         U += unit(f'c14_hilbert_curve_{k}', 'c01_layouts.cpp', f'hilbert_curve_h<{k}>()', 'BITS', sites=[1, 2, 3, 4],
                   cfg={'query_timeout_ms': 600000}, weight=4 ** k, timeout=2400, diff=(k == 3))
     return U
+
+
+# ------------------------------------------------------------------------------------------------ C02 / C10 / C11 / C04
+PAIRS_Q = [(1, 1), (2, 3), (3, 1), (3, 3), (1, 4)]
+PAIRS_T = [(n, m) for n in (1, 2, 3, 4) for m in (1, 2, 3, 4)]
+PERMS = {1: ['0'], 2: ['1,0'], 3: ['2,0,1', '1,2,0'], 4: ['3,1,0,2']}
+
+INFO['C02'] = {
+    'bounds': 'per-layer obligations over the probe backend (uninterpreted function of the coordinate, call recorder): '
+              'N and M independently in 1..4 (quick: 5 pairs, thorough: 16), coordinate scalars int/unsigned/size_t/float/double '
+              'where the layer admits them; every coordinate value (NaN excluded), every configuration value; '
+              'composition for deeper stacks by induction over the stack (stated) plus fixed stacks of depth 3-5 checked directly',
+    'outside': 'N or M above 4; NaN coordinates; stacks deeper than 5 (covered only by the induction argument)',
+    'cuts': 'probe backend = uninterpreted function per output component; equality of results is bit-for-bit',
+    'assumptions': ['a layer that treats its backend as an uninterpreted function of the coordinate cannot depend on what lies beneath (compositionality, stated)'],
+}
+INFO['C10'] = {
+    'bounds': 'clamp<probe>: N,M in 1..4, coordinate scalars int/unsigned/size_t/float/double, all coordinates incl. extremes and '
+              'infinities (NaN excluded), all boxes lo<=hi; array-backed: clamp<strided<array>> with symbolic extents and box inside '
+              'the extents (INT mode), clamp below/above linear with symbolic extents',
+    'outside': 'NaN coordinates; boxes with lo>hi (std::clamp precondition)',
+    'cuts': 'probe backend (UF)', 'assumptions': [],
+}
+INFO['C11'] = {
+    'bounds': 'backup<probe<N,M>>: N,M in 1..4, coordinate scalars int/size_t/float/double, all coordinates (NaN excluded), all boxes '
+              '(also lo>hi), all defaults bit for bit; probe call counter',
+    'outside': 'NaN coordinates', 'cuts': 'probe backend (UF)', 'assumptions': [],
+}
+INFO['C04'] = {
+    'bounds': 'nearest_neighbour<probe>: N=1..4, coordinate scalar float (|x| < 2^23) and double (|x| < 2^52), every x_k in '
+              '(-0.5, E-0.5): delegated lattice point within 1/2 per component (exact comparisons on doubles); IEEE semantics '
+              'bit-precise (z3 FP theory), lrint/lrintf modelled as round-to-nearest-even conversion (default rounding mode)',
+    'outside': 'non-default rounding modes; coordinates beyond 2^23 / 2^52 where floats have no fractional part',
+    'cuts': 'lrintf/lrint model', 'assumptions': ['FE_TONEAREST'],
+}
+
+
+def layer_units(tier, layers):
+    th = tier == 'thorough'
+    pairs = PAIRS_T if th else PAIRS_Q
+    U = []
+    H = 'c02_layers.cpp'
+    if 'clamp' in layers:
+        tins = ['int', 'unsigned', 'size_t', 'float', 'double']
+        for i, (n, m) in enumerate(pairs):
+            for j, tin in enumerate(tins):
+                if not th and (i + j) % 2 == 1 and not (n, m) == (2, 3):
+                    continue
+                if tin in ('float', 'double') and n == 4 and not th:
+                    continue
+                tout = 'float' if (i + j) % 2 == 0 else 'double'
+                fl = ('rel', 'dbg', 'san') if (n, m) == (2, 3) else ('rel',)
+                U += unit(f'c10_clamp_{n}_{m}_{tin}_{tout}', H, f'clamp_h<{n},{m},{tin},{tout}>()', flavours=fl,
+                          sites=[1, 2, 3, 4], diff=(n <= 2), weight=(3 ** n if tin in ('float', 'double') else 1))
+    if 'backup' in layers:
+        tins = ['int', 'size_t', 'float', 'double']
+        for i, (n, m) in enumerate(pairs):
+            for j, tin in enumerate(tins):
+                if not th and (i + j) % 2 == 1 and not (n, m) == (2, 3):
+                    continue
+                tout = 'float' if (i + j) % 2 == 1 else 'double'
+                fl = ('rel', 'dbg', 'san') if (n, m) == (2, 3) else ('rel',)
+                U += unit(f'c11_backup_{n}_{m}_{tin}_{tout}', H, f'backup_h<{n},{m},{tin},{tout}>()', flavours=fl,
+                          sites=[1, 2, 3, 4, 5], diff=(n <= 2))
+    if 'shuffle' in layers:
+        for (n, m) in pairs:
+            for pi, perm in enumerate(PERMS[n]):
+                tin = ['size_t', 'float', 'int'][(n + m + pi) % 3]
+                U += unit(f'c02_shuffle_{n}_{m}_{tin}_{perm.replace(",", "")}', H, f'shuffle_h<{n},{m},{tin},float,{perm}>()',
+                          sites=[1, 2], diff=(n == 3), flavours=('rel', 'dbg') if n == 3 else ('rel',))
+    if 'cast' in layers:
+        for (n, m) in pairs:
+            for tin, tout, tgt in (('size_t', 'float', 'double'), ('float', 'double', 'float')):
+                if not th and tin == 'float' and (n + m) % 2:
+                    continue
+                U += unit(f'c02_cast_{n}_{m}_{tin}_{tout}_{tgt}', H, f'cast_h<{n},{m},{tin},{tout},{tgt}>()', sites=[1, 2, 3],
+                          diff=(n == 2))
+    if 'prims' in layers:
+        for n in (1, 2, 3):
+            U += unit(f'c02_deref_{n}', H, f'deref_h<{n},{VEC[["f2", "d3", "f1"][n - 1]]}>()', sites=[1, 2], diff=(n == 2))
+        for (n, m) in pairs:
+            U += unit(f'c02_constant_{n}_{m}', H, f'constant_h<{n},{m},{"float" if n % 2 else "size_t"},{"double" if m % 2 else "float"}>()',
+                      sites=[1, 2], diff=(n == 3))
+            U += unit(f'c02_viewforms_{n}_{m}', H, f'viewforms_h<{n},{m},{"float" if m % 2 else "size_t"},float>()', sites=[1, 2, 3],
+                      diff=(n == 3))
+        for n in (1, 2, 3, 4):
+            U += unit(f'c02_identity_{n}', H, f'identity_h<{n},{["float", "size_t", "double", "int"][n - 1]}>()', sites=[1], diff=(n == 2))
+    if 'nn' in layers:
+        for n in ((1, 2, 3, 4) if th or 'nnfull' in layers else (1, 2)):
+            for tc in ('float', 'double'):
+                m = (n % 3) + 1
+                U += unit(f'c04_nn_{n}_{m}_{tc}', H, f'nn_h<{n},{m},{tc},size_t,float>()', sites=[1, 2, 3, 4],
+                          flavours=('rel', 'dbg') if n == 1 else ('rel',), diff=(n <= 2), weight=20 * n,
+                          cfg={'query_timeout_ms': 300000})
+    return U
+
+
+def units_C02(tier, seed):
+    U = layer_units(tier, ['clamp', 'backup', 'shuffle', 'cast', 'prims', 'nn'])
+    return U + more_C02(tier)
+
+
+def more_C02(tier):
+    return []
+
+
+def units_C10(tier, seed):
+    return layer_units(tier, ['clamp']) + more_C10(tier)
+
+
+def more_C10(tier):
+    return []
+
+
+def units_C11(tier, seed):
+    return layer_units(tier, ['backup'])
+
+
+def units_C04(tier, seed):
+    return layer_units(tier, ['nn', 'nnfull'])
